@@ -303,6 +303,8 @@ def diagnostics(rep):
         open(path, "w").write(deep)
         env = dict(os.environ)
         env["NO_COLOR"] = "1"
+        full = subprocess.run([vlib.CLI_BIN, path], stdout=subprocess.PIPE, stderr=subprocess.PIPE, env=env, timeout=60).stderr.decode("utf-8", "replace")
+        total = full.count("note: while")
         for mt in range(0, 30):
             p = subprocess.run([vlib.CLI_BIN, "--max-trace", str(mt), path], stdout=subprocess.PIPE, stderr=subprocess.PIPE, env=env, timeout=60)
             err = p.stderr.decode("utf-8", "replace")
@@ -315,6 +317,25 @@ def diagnostics(rep):
                 rep.violation("c16crop:%d" % mt, "cropped report failed (exit %s)" % p.returncode, rp)
             elif hidden and shown != mt:
                 rep.violation("c16crop:%d" % mt, "--max-trace %d shows %d trace items" % (mt, shown), rp)
+            elif mt >= total and err != full:
+                rep.violation("c16crop:%d" % mt, "--max-trace %d with a trace of %d items differs from the uncropped report" % (mt, total), rp)
+            elif mt < total and (len(hidden) != 1 or int(hidden[0]) != total - mt):
+                rep.violation("c16crop:%d" % mt, "--max-trace %d of %d items: hidden note says %r" % (mt, total, hidden), rp)
+        # reports with extra trailing notes (manifestation of a stream / multi item): same accounting, never a crash
+        for flags, src in ((["-y"], "[function(x) x]"), (["-y"], "[1, {a: error \"boom\"}]"), (["-m", tmp], "{\"f\": function(x) x}"),
+                           ([], "{a: [error \"deep\"]}"), (["-S"], "1")):
+            ref = subprocess.run([vlib.CLI_BIN] + flags + ["-e", src], stdout=subprocess.PIPE, stderr=subprocess.PIPE, env=env, timeout=60)
+            tot = ref.stderr.decode("utf-8", "replace").count("note: ")
+            for mt in range(0, tot + 3):
+                p = subprocess.run([vlib.CLI_BIN, "--max-trace", str(mt)] + flags + ["-e", src], stdout=subprocess.PIPE, stderr=subprocess.PIPE, env=env, timeout=60)
+                err = p.stderr.decode("utf-8", "replace")
+                rep.evaluations += 1
+                rep.bump("cli-crop-notes")
+                rp = {"src": src, "cmd": ["--max-trace", str(mt)] + flags + ["-e"], "exit": p.returncode, "stderr": err[:400]}
+                if p.returncode != ref.returncode:
+                    rep.violation("c16cropn:%d:%s" % (mt, src), "--max-trace %d: exit status %s instead of %s" % (mt, p.returncode, ref.returncode), rp)
+                elif "0 items hidden" in err:
+                    rep.violation("c16cropn:%d:%s" % (mt, src), "--max-trace %d: a note says that 0 items are hidden" % mt, rp)
     finally:
         shutil.rmtree(tmp, ignore_errors=True)
     vlib.huge_token_probe(rep, ("diag",))
